@@ -180,10 +180,14 @@ impl Snapshot {
 	/// (building one just for this call would unregister its sequence number
 	/// again when it is dropped).
 	fn collect_iter_state_from(core: &Arc<Core>) -> Result<IterState> {
+		// Lock order (see `CoreInner`): active_memtable -> level_manifest ->
+		// immutable_memtables. Flush and compaction take the manifest and then
+		// the immutable queue for writing; taking them here in the opposite
+		// order deadlocks a range scan against a background flush/compaction.
 		let active = guardian::ArcRwLockReadGuardian::take(Arc::clone(&core.active_memtable))?;
+		let manifest = guardian::ArcRwLockReadGuardian::take(Arc::clone(&core.level_manifest))?;
 		let immutable =
 			guardian::ArcRwLockReadGuardian::take(Arc::clone(&core.immutable_memtables))?;
-		let manifest = guardian::ArcRwLockReadGuardian::take(Arc::clone(&core.level_manifest))?;
 
 		Ok(IterState {
 			active: active.clone(),
